@@ -40,11 +40,11 @@ def MMap.runL (cfg : Cfg) (mm : MMap) : List (LOp Key) → MMap
   | .look ck :: rest => MMap.runL cfg (mm.lookup cfg ck).1 rest
   | .cut ck n :: rest => MMap.runL cfg (mm.lookupCut cfg ck n) rest
 
-theorem MMap.runL_inv (cfg : Cfg) (ms : List Meth) (e : Option Nat) (ok : PlanOK (plan cfg ms)) :
-    ∀ (hist : List (LOp Key)) (mm : MMap), MInv cfg ms e mm → MInv cfg ms e (mm.runL cfg hist)
+theorem MMap.runL_inv (cfg : Cfg) (ms : List Meth) (ok : PlanOK (plan cfg ms)) :
+    ∀ (hist : List (LOp Key)) (mm : MMap), MInv cfg ms mm → MInv cfg ms (mm.runL cfg hist)
   | [], _, h => h
-  | .look ck :: rest, mm, h => MMap.runL_inv cfg ms e ok rest _ (MMap.lookup_spec cfg ms e ok mm h ck).2
-  | .cut ck n :: rest, mm, h => MMap.runL_inv cfg ms e ok rest _ (MMap.lookupCut_inv cfg ms e ok mm h ck n)
+  | .look ck :: rest, mm, h => MMap.runL_inv cfg ms ok rest _ (MMap.lookup_spec cfg ms ok mm h ck).2
+  | .cut ck n :: rest, mm, h => MMap.runL_inv cfg ms ok rest _ (MMap.lookupCut_inv cfg ms ok mm h ck n)
 
 /-- the same on the public multi-type table of any set of methods with distinct handlers: ordinary keys and
     `call_next` continuation keys, any types -/
@@ -53,7 +53,7 @@ theorem C18_table (cfg : Cfg) (ms : List Meth) (hd : DistinctHandlers ms)
     (((MMap.fresh ms).runL cfg hist).lookup cfg ck).2 = ((MMap.fresh ms).lookup cfg ck).2 := by
   have ok := plan_ok cfg ms hd.ids hd.codes
   have h0 := MMap.fresh_inv cfg ms
-  have h1 := MMap.runL_inv cfg ms _ ok hist _ h0
-  rw [(MMap.lookup_spec cfg ms _ ok _ h1 ck).1, (MMap.lookup_spec cfg ms _ ok _ h0 ck).1]
+  have h1 := MMap.runL_inv cfg ms ok hist _ h0
+  rw [(MMap.lookup_spec cfg ms ok _ h1 ck).1, (MMap.lookup_spec cfg ms ok _ h0 ck).1]
 
 end Ovld
